@@ -5,7 +5,7 @@ import (
 )
 
 // VerifC02Perm: n data frames (+ optional closing frame) delivered once each in every arrival order through one reused
-// receive buffer, the reader draining at arbitrary moments; symbolic base sequence number and payload bytes.
+// receive buffer (one data frame may be empty), the reader draining at arbitrary moments; symbolic base sequence number and payload bytes.
 func VerifC02Perm() {
 	n := vapi.Param("n", 3)
 	rdChoices := vapi.Param("rd", 3)
@@ -18,8 +18,14 @@ func VerifC02Perm() {
 	payloads := make([][]byte, n)
 	var expected []byte
 	names := []string{"p0", "p1", "p2", "p3", "p4", "p5", "p6", "p7"}
+	// one of the data frames (or none) is empty: it carries no bytes but still uses up its sequence number
+	emptyAt := vapi.Pick("empty", n+1)
 	for i := range payloads {
-		payloads[i] = vapi.Bytes(names[i], 1+i%2)
+		l := 1 + i%2
+		if i == emptyAt {
+			l = 0
+		}
+		payloads[i] = vapi.Bytes(names[i], l)
 		expected = append(expected, payloads[i]...)
 	}
 	m := n
